@@ -484,10 +484,23 @@ def main():
                 signal.alarm(0)
         except Timeout:
             out = 'TIMEOUT'
-        except RecursionError:
-            # where: number of clauses of the conjunction and what the saturation loop had answered
+        except RecursionError as e:
+            # D17.  Report where the limit was hit: `origin=pattern` when the innermost hand-written frame is in
+            # pattern.py (Instantiate.__eq__/simplify/instantiate, ...), plus what had been computed so far
+            # (clause count, answer of the saturation loop).
+            # innermost frame that is not dataclass-generated code ('<string>': __eq__/__init__/__hash__ of the
+            # Pattern dataclasses, which pattern.py calls while comparing / simplifying / instantiating)
+            tb = e.__traceback__
+            fn, name = '?', '?'
+            while tb is not None:
+                c = tb.tb_frame.f_code
+                if c.co_filename != '<string>':
+                    fn, name = c.co_filename, c.co_name
+                tb = tb.tb_next
+            origin = 'pattern' if fn.endswith('pattern.py') else fn.split('/')[-1] + ':' + name
+            del tb
             loop = '?' if TAUT.trace is None else {True: 'T', False: 'F', None: '?'}[TAUT.trace[2]]
-            out = f'ERR RecursionError clauses={LAST["clauses"]} loop={loop}'
+            out = f'ERR RecursionError origin={origin} clauses={LAST["clauses"]} loop={loop}'
         except Exception as e:  # noqa: BLE001  (one bad case must not kill the whole chunk)
             out = 'ERR ' + type(e).__name__
         print(out)
